@@ -57,6 +57,7 @@ def _close(a, b, tol=TOL):
 # estimators: weighted sum over all tuples
 # ---------------------------------------------------------------------------------------------
 SITE = {"direct": "DirectEstimator", "directcv": "DirectEstimator", "is": "ImportanceSamplingEstimator",
+        "isalias": "ImportanceSamplingEstimator",
         "enum": "EnumerateEstimator", "mh": "IndependentMetropolisHastingsEstimator"}
 
 
@@ -95,6 +96,13 @@ def build_estimator(cs, rep, theta, theta_q, batch, is_log, samples):
                                   is_log=is_log)
         else:
             e = E.DirectEstimator(target, func, cs["M"], is_log=is_log)
+    elif est == "isalias":
+        # importance sampling whose proposal IS the density (one object): the weights are one, the estimate is the direct
+        # one and its gradient w.r.t. the distribution's parameters is the score-function gradient (the specification's
+        # direct case: same expectation, same gradient)
+        stub = _est.SampleStub([samples])
+        target.sample = stub
+        e = E.ImportanceSamplingEstimator(target, func, cs["M"], target, is_log=is_log)
     elif est == "is":
         prop = _est.make_dist(cs, rep, theta_q, batch)
         stub = _est.SampleStub([samples])
@@ -214,6 +222,10 @@ def run_estimators(ctx, cases):
                     variants.append((True, False))
             for is_log, batched in variants:
                 judge_case(ctx, d, r, is_log, batched)
+                if cs["est"] == "direct":
+                    alias = dict(d, cs=dict(cs, est="isalias"))
+                    judge_case(ctx, alias, r, is_log, batched)
+                    ctx.count("importance_sampling_with_proposal_as_density", 1)
                 ctx.case(key=("est", k, r, is_log, batched), nontrivial=nontriv, n=max(1, len(d["tuples"])),
                          sample=dict(case=cs, rep=r, is_log=is_log, E=d["E"], G=d["G"], tuples=len(d["tuples"]),
                                      first_tuple=d["tuples"][0]) if ctx.rng.random() < 0.004 else None)
